@@ -103,6 +103,16 @@ fn packet_site() -> Site {
             for (fi, start, len) in &lay {
                 if matches!(k.fields[*fi].ty, spec::Ty::Vehicle) && *len == 4 {
                     targets.push((format!("{}.{}", k.name, k.fields[*fi].name), c, f.clone(), *start));
+                    // the car name is a matter of its own four bytes, whatever the texts around it say: every text field
+                    // of the packet holding a skin-like / mod-like name (LFS names mod skins after the mod's id)
+                    for (ti, tstart, tlen) in &lay {
+                        if !matches!(k.fields[*ti].ty, spec::Ty::Text(_)) { continue; }
+                        for word in ["XFG_DEFAULT", "39CEEB_DEFAULT", "DBF12E_x", "dbf12e_x", "000000_", "MOD(39CEEB)"] {
+                            let mut g = f.clone();
+                            for (j, slot) in g[*tstart..*tstart + *tlen].iter_mut().enumerate() { *slot = if j + 1 < *tlen { *word.as_bytes().get(j).unwrap_or(&0) } else { 0 }; }
+                            targets.push((format!("{}.{} with {} = {word:?}", k.name, k.fields[*fi].name, k.fields[*ti].name), c, g, *start));
+                        }
+                    }
                 }
             }
         }
@@ -111,7 +121,7 @@ fn packet_site() -> Site {
     let targets = std::sync::Arc::new(targets);
     let n = (targets.len() * vals.len()) as u64;
     Site::new("in-packets", n,
-        "every packet field that carries a car name (NPL, RES, SLC; both modes) x every built-in name, near-names and mod ids: the packet decodes iff the four bytes decode on their own, and re-encodes to the same frame",
+        "every packet field that carries a car name (NPL, RES, SLC; both modes; also with each text field of the packet holding one of 6 skin-like / mod-like names) x every built-in name, near-names and mod ids: the packet decodes iff the four bytes decode on their own, and re-encodes to the same frame",
         move |i, acc| {
             acc.eval();
             let (name, compressed, frame, off) = &targets[(i as usize) / vals.len()];
